@@ -26,7 +26,11 @@ partial def loop (h : IO.FS.Stream) (out : IO.FS.Stream) : IO Unit := do
   | ["case", id, flags, objsel, hex] =>
     match flags.toNat?, objsel.toInt?, unhex hex with
     | some f, some o, some data =>
-      out.putStrLn (resultLine id (readNL data f (if o < 0 then none else some o.toNat)))
+      let sel := if o < 0 then none else some o.toNat
+      let r := readNL data f sel
+      -- the model of NLFileReader::Read (page size 4096) on the same bytes: outcome, and whether header + events agree
+      let rf := readNLFile data 4096 f sel
+      out.putStrLn (resultLine id r ++ s!" | filemodel={rf.outcome.toStr},{if rf == r then 1 else 0}")
     | _, _, _ => out.putStrLn "bad-op"
   | ["strtod", hex] =>
     match unhex hex with
